@@ -146,6 +146,47 @@ def run(ctx, res):
             if ok and tag == 'valid' and M.token_count([src]) != M.token_count([fm]):
                 res.fail(key, 'token count changed by luafmt', inp)
     # CLI: luafmt and luafmt --overwrite
+    # histories on one Lua object: render it with other writers / options first (token-free tree rendering, minifier, echo), then format:
+    # the formatter's output is that of a freshly loaded object
+    from pico8.lua import lua as lua_mod
+    for h in range(ctx.budget(25, 400)):
+        src = gen_lua.gen_program(rng)[0]
+        w = rng.randrange(0, 6)
+        try:
+            want = F.luafmt(src, w)
+            want_echo = F.run_writer([src], 'astecho', None)
+        except Exception:
+            continue
+        res.evaluations += 1
+        res.count('render-histories')
+        l = lua_mod.Lua.from_lines([src], version=8)
+        steps = []
+        for _ in range(rng.randrange(1, 4)):
+            kind = rng.choice(['astecho-ignore-tokens', 'minify', 'echo', 'fmt-other-width', 'astmin'])
+            steps.append(kind)
+            try:
+                if kind == 'astecho-ignore-tokens':
+                    list(l.to_lines(writer_cls=lua_mod.LuaASTEchoWriter, writer_args={'ignore_tokens': True}))
+                elif kind == 'minify':
+                    list(l.to_lines(writer_cls=lua_mod.LuaMinifyTokenWriter))
+                elif kind == 'echo':
+                    list(l.to_lines())
+                elif kind == 'astmin':
+                    list(l.to_lines(writer_cls=lua_mod.LuaMinifyWriter))
+                else:
+                    list(l.to_lines(writer_cls=lua_mod.LuaFormatterWriter, writer_args={'indentwidth': w + 3}))
+            except Exception:
+                pass            # (what these renderings produce is not this property's subject; they must not disturb the object)
+        key = 'C09:history:%s' % hx(src)[:50]
+        inp = {'source': hx(src), 'indentwidth': w, 'rendered_before': steps}
+        try:
+            got = b''.join(l.to_lines(writer_cls=lua_mod.LuaFormatterWriter, writer_args={'indentwidth': w}))
+            got_echo = b''.join(l.to_lines(writer_cls=lua_mod.LuaASTEchoWriter))
+        except Exception as e:
+            res.fail(key, 'after rendering the same Lua object with %s, luafmt raised %r on a valid program' % (steps, e), inp)
+            continue
+        if got != want or got_echo != want_echo:
+            res.fail(key, 'after rendering the same Lua object with %s, luafmt / the echo walk give a different text than on a fresh object' % steps, inp)
     from pico8 import tool
     from pico8.game import file as gfile
     cli_unparseable(ctx, res)
